@@ -157,7 +157,7 @@ pub fn check_lex(ctx: &mut Ctx, text: &str) {
 }
 
 fn lexer_sweep(ctx: &mut Ctx) {
-    let alpha: Vec<char> = "a10<=>-\"'{}#$ \u{e9}or\\/\u{2167}".chars().collect();
+    let alpha: Vec<char> = "a10<=>-\"'{}#$ \u{e9}or\\/\u{2167}\u{301}".chars().collect();
     let maxlen = if ctx.thorough() { 6 } else { 5 };
     let mut base = 0u64;
     for len in 0..=maxlen {
